@@ -713,7 +713,7 @@ func coqStmt(s Stmt) string {
 	}
 	fill := []string{"FillNull", "FillNone", "(FillNum " + hx.CoqZ(s.FillVal) + ")", "FillPrev", "FillLinear"}[s.Fill]
 	fn := []string{"FRaw", "FCount", "FSum", "FMean", "FMin", "FMax", "FFirst", "FLast", "FSpread", "FMedian",
-		"FDistinct", "FMode", fmt.Sprintf("(FPercentile %d)", s.Pct2), "FCountDistinct"}[s.Fn]
+		"FDistinct", "FMode", "(FPercentile " + hx.CoqZ(int64(s.Pct2)) + ")", "FCountDistinct"}[s.Fn]
 	return fmt.Sprintf("(mkStmt %s %s %s %s %s %s [%s;%s] %s %s %d %d %d %d)",
 		fn, hx.CoqZ(s.TMin), hx.CoqZ(s.TMax), pred, hx.CoqZ(s.Interval), hx.CoqZ(s.OffLit),
 		hx.CoqBool(s.ByHost), hx.CoqBool(s.ByRegion), fill, hx.CoqBool(s.Desc), s.Limit, s.Off, s.SLimit, s.SOff)
